@@ -91,6 +91,11 @@ class NestedParent(WrappingQuery):
         self.per_parent_limit = per_parent_limit
         self.score_fn = score_fn
 
+    def _rewrap(self, child):
+        return self.__class__(self.parents, child,
+                              per_parent_limit=self.per_parent_limit,
+                              score_fn=self.score_fn)
+
     def normalize(self):
         p = self.parents
         if isinstance(p, qcore.Query):
@@ -285,6 +290,9 @@ class NestedChildren(WrappingQuery):
         self.parents = parents
         self.child = subq
         self.boost = boost
+
+    def _rewrap(self, child):
+        return self.__class__(self.parents, child, boost=self.boost)
 
     def matcher(self, searcher, context=None):
         bits = searcher._filter_to_comb(self.parents)
